@@ -325,6 +325,13 @@ def addressed_selection(ctx, rule='C07.R4', only=None):
 
 
 def run(ctx):
+    # whatever the plate-level transfers compute themselves (a fail-early total, a pre-check) is unit-consistent
+    from . import targets as _targets
+    from .. import uscan as _uscan2
+    for q_ in ('Container._transfer_slice', 'PlateSlicer._transfer'):
+        _uscan2.report_sinks(ctx, lambda cat: 'C07.R2' if cat in ('add-units', 'compare-units', 'to-storage', 'to-storage-dim',
+                                                                  'storage-compare', 'storage-label', 'qstr', 'convert-from-unit',
+                                                                  'truncating-division') else None, _targets.scan(ctx, q_))
     from .configtime import no_identity_test_against_literals as _no_is_literal
     _no_is_literal(ctx, 'C07.R3', classes=('Container', 'Plate', 'PlateSlicer', 'Slicer'))
     from .configtime import no_shared_mutable_defaults as _mutdef, selection_not_changed_in_place as _sel_inplace
